@@ -58,6 +58,17 @@ def pair_rules(rep, F, cg, M):
             'move_p: a data record removed from the old key is inserted under the new key')
     P.after(rep, 'PAIR', 'pair:move_p:old-parent.remove->new-parent.add', fn, state('remove'), state('add'), [],
             'move_p: the name removed from the old parent is added to the new parent')
+    # an entry stored under a key brings the data index under that key in line: its own data is inserted, or whatever data the replaced destination had is dropped
+    from panics import sdesc_operand as _sd
+
+    def same_key_data_update(B, i, t):
+        c = callee_of(t) or ''
+        if not (c.endswith('>::insert_file') or c.endswith('>::remove_file')) or len(t['args']) < 2:
+            return False
+        keys = {_sd(B, tt['args'][1]) for ii, tt in B.calls() if (callee_of(tt) or '').endswith('>::insert_entry') and len(tt['args']) > 1}
+        return _sd(B, t['args'][1]) in keys
+    P.after(rep, 'PAIR', 'pair:move_p:insert_entry->data-index', fn, suffix('>::insert_entry'), same_key_data_update, [],
+            'move_p: after an entry is stored under the destination key the data index under that key is updated (own data inserted, or stale data of a replaced file removed)')
     fn = M_ + '_copy'
     P.after(rep, 'PAIR', 'pair:_copy:_add->insert_file', fn, suffix('>::_add'), suffix('>::insert_file'), [('true', r'^is_symlink\(')],
             '_copy: a copied non-link file gets its data stored under the new key')
